@@ -320,6 +320,9 @@ pub struct Sim {
     pub advance_budget: i64,
     /// seconds the clock was advanced while the parent syncs were held
     pub held_advance: i64,
+    /// quiesce() returns early once this says so (a simulated crash: a dead
+    /// process runs no further tasks)
+    pub abort_check: Option<fn() -> bool>,
 }
 
 #[derive(Debug)]
@@ -368,6 +371,7 @@ impl Sim {
             task_bad: None,
             advance_budget: budget,
             held_advance: 0,
+            abort_check: None,
         })
     }
 
@@ -438,9 +442,16 @@ impl Sim {
         let mut steps = 0;
         let mut last = String::new();
         let mut same = 0;
+        let mut waits = 0;
         loop {
             while let Some(name) = self.pump_one()? {
                 steps += 1;
+                waits = 0;
+                if let Some(f) = self.abort_check {
+                    if f() {
+                        return Ok(());
+                    }
+                }
                 // A task that is rescheduled to "the same second" spins until
                 // the wall clock moves on; move the virtual clock instead.
                 if name == last {
@@ -460,10 +471,22 @@ impl Sim {
                     )));
                 }
             }
+            if let Some(f) = self.abort_check {
+                if f() {
+                    return Ok(());
+                }
+            }
             let now_ms = (clock::now_s() as u128) * 1000;
             let soon = self.w().pending_tasks().into_iter().find(|(ts, _)| *ts <= now_ms + 3_000);
             match soon {
-                Some(_) => clock::advance(1),
+                Some(_) => {
+                    clock::advance(1);
+                    waits += 1;
+                    // a due task that can never be taken (e.g. the store refuses every write)
+                    if waits > 600 {
+                        return Err(Fail::Violation("background work does not settle: a due task is never taken from the queue".into()));
+                    }
+                }
                 None => return Ok(()),
             }
         }
